@@ -90,6 +90,10 @@ pub fn end_execution() -> ExecLog {
     SHIM.with(|s| {
         let mut s = s.borrow_mut();
         s.active = false;
+        if let Some(a) = s.unknown_addr {
+            drop(s);
+            vcommon::machinery_error(&format!("Guard::lock reported a mutex at {:#x} that verif_hooks::cache_addresses() does not list: the lock model is incomplete", a));
+        }
         ExecLog {
             events: std::mem::take(&mut s.events),
             blocked: s.blocked_reqs.len(),
